@@ -54,7 +54,8 @@ add("C14", "fault_enumeration", "property-based testing with fault injection (Hy
     "under shims that count open/write/flush/close/rename boundaries; for each boundary and fault kind (die, "
     "die-after-flush, OSError, partial write + OSError) a forked child re-runs the update and the file must afterwards be "
     "the complete previous or new version and load with the repository's loader; fault-free histories of 1-6 updates "
-    "with hostile characters must read back exactly.",
+    "with hostile characters must read back exactly. Sub-check `long`: 150-600 successive updates by one forked "
+    "child whose open-file limit is lowered (no matter how many updates preceded it).",
     "Process death / I/O errors are injected at Python-level boundaries (not power loss or page-cache reordering); for "
     "FlowIR dumps with hundreds of emitter writes the write boundaries are sampled (counts in evidence).",
     "DESIGN.md section 3, C14")
@@ -69,7 +70,10 @@ add("C12", "exploration", "property-based testing (Hypothesis): generated exit-r
     "only for -1 or a named hook file), <=5 consecutive re-submissions, final state after a refusal and termination of "
     "the stage loop. Sub-check `observer`: restart launches of a repeating component whose final execution died of "
     "ResourceExhausted (bounded, terminating). Late-restart probe: restart() on components that already hold a final "
-    "state must not launch anything.", _RT_NOTE, "DESIGN.md section 3, C12")
+    "state must not launch anything. Sub-check `engine`: Engine.restart()/kill() used directly (run -> exit -> restart "
+    "-> kill at a generated offset -> restart): no launch after a kill, exit reason Killed/Cancelled when the kill "
+    "prevented the relaunch. Failed submissions are raised by the task generator or reported by an accepted task.",
+    _RT_NOTE, "DESIGN.md section 3, C12")
 add("C08", "exploration", "property-based testing (Hypothesis): generated histories of mutator/query calls; differential "
     "oracle = FlowIRConcrete rebuilt from raw() after every step; returned configurations scribbled on",
     "State-aware generated histories (set/delete component variables and options, global/stage/platform variables, "
@@ -100,10 +104,11 @@ add("C18", "fault_enumeration", "property-based testing with hostile-input enume
     "archives (.. segments, absolute names, symlink/hardlink members, chains, links staged by other references) and "
     "manifests (.. keys, nested keys, keys below linked folders) inside a per-case sandbox; a recursive lstat snapshot of "
     "everything outside the target must be unchanged, escaping inputs must be rejected with the staging/packaging error "
-    "types, and each hostile case's benign twin must still stage correctly. A 1572-case catalogue (technique x climb x "
-    "landing x position x tar format) is enumerated on every run.",
-    "The kernel-like path-resolution model in vf/fault/c18_vfs.py is trusted to classify inputs; device members and "
-    "manifest keys conf/input/stages/output are outside the domain.", "DESIGN.md section 3, C18")
+    "types, and each hostile case's benign twin must still stage correctly. A catalogue of ~1700 cases (technique x "
+    "climb x landing x position x tar format, references ending in .., reserved manifest keys) is enumerated on every run.",
+    "The kernel-like path-resolution model in vf/fault/c18_vfs.py is trusted to classify inputs; device members are "
+    "outside the domain; for manifest keys conf/input/stages/output and references ending in .. only the "
+    "no-change-outside oracle applies.", "DESIGN.md section 3, C18")
 
 add("C13", "exploration", "property-based testing (Hypothesis): generated histories (output times, notification time, "
     "external kill, task durations/outcomes, engine options) replayed by a discrete-event simulation of the real "
@@ -128,7 +133,8 @@ add("C19", "exploration", "property-based testing (Hypothesis): generated legacy
     "written with Dosini.dump in four modes (full/sparse instance, package dump, hand-written legacy package -> instance) "
     "and loaded back; per component the resolved configuration, references and variables, plus environments, status and "
     "output sections must be equal. A deterministic sweep touches each of the 49 keys of the mapping table in every mode on "
-    "every run.", "Domain restricted to what both the writer and the parser define (single-line ASCII values, numeric "
+    "every run. A third of the multi-stage instance cases are followed by a second dump (workflow minus its last stage) "
+    "into the same directory.", "Domain restricted to what both the writer and the parser define (single-line ASCII values, numeric "
     "options are numbers or one whole %(var)s reference); errors the loader only collects are not violations.",
     "DESIGN.md section 3, C19")
 
@@ -184,7 +190,7 @@ add("C16", "exploration", "property-based testing (Hypothesis): pairs of instant
     "mutation of it are instantiated as real Experiments in different directories; for all node pairs across both, "
     "strong hashes must be equal exactly when the independent work descriptors (executable, image, arguments with "
     "references replaced by content/producer descriptors, consumed (content, method) multiset) are equal; no hash while "
-    "an input is missing; hashes stable across reads and memoization_reset; fuzzy hashes ignore produced-file contents "
+    "an input is missing; hashes stable across reads, memoization_reset and checkExecutable(); fuzzy hashes ignore produced-file contents "
     "and follow producer fuzzy hashes. One open known finding (directory contents) is excluded by signature.",
     "Files produced by components are written by the harness; the contrived separator-less serialisation collision is "
     "outside the generated domain.", "DESIGN.md section 3, C16")
@@ -222,7 +228,7 @@ add("C11", "exploration", "property-based testing (Hypothesis): valid generated 
 add("C15", "exploration", "property-based testing (Hypothesis) with a cross-process differential: batches of generated "
     "packages loaded by child interpreters with different PYTHONHASHSEED, key-permuted equal documents and permuted "
     "directory listings; canonical dumps compared, plus a model for variable-file layering",
-    "The parent writes a batch of generated FlowIR and DSL packages (>=2 user variable files with overlapping keys, "
+    "The parent writes a batch of generated FlowIR, DSL and legacy (DOSINI, optionally with stale instance files) packages (>=2 user variable files with overlapping keys, "
     "manifests, environments, duplicate DSL step names); child interpreters started with different hash seeds load "
     "independently key-permuted renderings under a permuted os.listdir/scandir and dump component names, edges, "
     "environments, resolved configurations and memoization hashes canonically; all dumps must be identical and a key "
